@@ -224,7 +224,7 @@ def register(reg):
     class SocksHandle(Contract):
         key = SOCKS + ".handle_async_request"
         callsite_events = {'H11.__init__', 'H2.__init__', 'net.start_tls', 'call:httpcore._async.socks_proxy._init_socks5_connection', 'ci.handle_request', 'net.connect_tcp'}
-        props = ("C11", "C10", "C16", "C05", "C06", "C15", "C14", "C04", "C08")
+        props = ("C11", "C10", "C16", "C05", "C06", "C07", "C15", "C14", "C04", "C08")
         raises = CONN_RAISES + ["Cancelled"]
         raises_props = ("C15",)
         max_paths = 40000
